@@ -8,7 +8,7 @@ Steps (all recorded in meta.json):
   2. the repository's unedited suite in the worktree with the change      -> must pass 208/208;
   3. DEMO.py in the worktree with the change                                -> must exit non-zero;
   4. DEMO.py on a clean export of /repo HEAD (scratch dir, removed after)   -> must exit 0;
-  5. apply patch.diff to /repo, run every registered quick check with --no-write, `git checkout -- .` straight afterwards;
+  5. apply patch.diff to a scratch export of /repo HEAD, run every registered quick check with --no-write --repo <scratch>;
      record which checks report a VIOLATION.
 """
 import json
@@ -65,27 +65,28 @@ def main():
     meta["ran"].append("DEMO.py on a clean export of /repo HEAD (scratch dir, removed)")
     confirmed = suite_ok and rc1 != 0 and rc0 == 0
     meta["confirmed"] = confirmed
-    # run the checks against /repo with the patch applied
+    # run the checks against a scratch export of /repo HEAD with the patch applied (/repo itself is not touched)
     results = {}
-    rc, out = sh("git -C /repo status --porcelain")
-    if out.strip():
-        print("/repo is not clean; refusing to apply")
-        return 2
-    rc, out = sh(f"git -C /repo apply {os.path.join(dest, 'patch.diff')}")
-    if rc != 0:
-        print("patch does not apply to /repo:", out)
-        return 2
+    scratch = tempfile.mkdtemp(prefix="akseed_chk_")
     try:
+        sh(f"git -C /repo archive HEAD | tar -x -C {scratch}")
+        rc, out = sh(f"patch -p1 -s < {os.path.join(dest, 'patch.diff')}", cwd=scratch)
+        if rc != 0:
+            print("patch does not apply to /repo HEAD:", out)
+            return 2
         props = [c["property_id"] for c in json.load(open(os.path.join(VERIF, "MANIFEST.json")))["checks"]]
-        for p in props:
-            rc, out = sh(f"./check {p} --tier quick --no-write", cwd=VERIF)
-            viol = [l for l in out.splitlines() if l.startswith("REFUTED")]
-            results[p] = {"exit": rc, "refuted": [v[:300] for v in viol[:4]], "analysis_error": [l[:300] for l in out.splitlines() if l.startswith("ANALYSIS-ERROR")][:2]}
+        from concurrent.futures import ThreadPoolExecutor
+
+        def one(p):
+            rc, out = sh(f"./check {p} --tier quick --no-write --repo {scratch}", cwd=VERIF)
+            viol = [l.replace(scratch, "<scratch>") for l in out.splitlines() if l.startswith("REFUTED")]
+            return p, {"exit": rc, "refuted": [v[:300] for v in viol[:4]], "analysis_error": [l[:300].replace(scratch, "<scratch>") for l in out.splitlines() if l.startswith("ANALYSIS-ERROR")][:2]}
+        with ThreadPoolExecutor(max_workers=6) as ex:
+            for p, r in ex.map(one, props):
+                results[p] = r
     finally:
-        sh("git -C /repo checkout -- .")
-    rc, out = sh("git -C /repo status --porcelain")
-    assert not out.strip(), "repo not restored!"
-    meta["ran"].append("git -C /repo apply patch.diff; ./check <each claimed property> --tier quick --no-write; git -C /repo checkout -- .")
+        shutil.rmtree(scratch, ignore_errors=True)
+    meta["ran"].append("scratch export of /repo HEAD + patch.diff; ./check <each claimed property> --tier quick --no-write --repo <scratch>; scratch removed")
     meta["checks"] = {p: r for p, r in results.items() if r["exit"] != 0}
     meta["caught_by"] = sorted(p for p, r in results.items() if r["exit"] == 1)
     meta["caught_by_target_property_check"] = prop in meta["caught_by"]
